@@ -603,6 +603,8 @@ func (env *Env) selectField(base Val, name string) Val {
 		switch name {
 		case "ref":
 			return term(fmt.Sprintf("(sl_ref %s)", base.T), types.Typ[types.Uintptr])
+		case "off":
+			return term(fmt.Sprintf("(sl_off %s)", base.T), tInt)
 		}
 	}
 	limitf("contract does not bind: no field %s in %s", name, base.Typ)
@@ -800,6 +802,7 @@ func (env *Env) evalCall(n ECall) Val {
 		}
 		oenv := *env
 		oenv.st = env.old
+		oenv.inEnsures = true
 		sv := oenv.eval(n.Args[1])
 		return term(fmt.Sprintf("(forall ((r!k Int)) (! (=> (and (<= 0 r!k) (<= r!k %s) (not (= r!k (sl_ref %s)))) (= (select %s r!k) (select %s r!k))) :pattern ((select %s r!k))))", env.old.alloc, sv.T, cur, old, cur), tBool)
 	case "card":
